@@ -50,6 +50,9 @@ type World struct {
 	Trace    []TraceEntry
 	Sent     []*SentMsg
 	CrashAt  int // trace index at which the calling process crashes; -1 = never
+	// CrashOn crashes the calling process at the next boundary "call:phase" (optionally only on CrashOnNode).
+	CrashOn     string
+	CrashOnNode string
 	crashed  chan *Proc
 	released chan struct{}
 	relOnce  sync.Once
@@ -138,9 +141,10 @@ func (p *Proc) point(call, phase, info string) bool {
 	}
 	idx := len(w.Trace)
 	w.Trace = append(w.Trace, TraceEntry{Idx: idx, Node: p.N.Name, Epoch: p.Epoch, Call: call, Phase: phase, Info: info})
-	if w.CrashAt == idx {
+	if w.CrashAt == idx || (w.CrashOn != "" && w.CrashOn == call+":"+phase && (w.CrashOnNode == "" || w.CrashOnNode == p.N.Name)) {
 		p.dead = true
 		w.CrashAt = -1
+		w.CrashOn = ""
 		w.mu.Unlock()
 		w.crashed <- p
 		<-w.released
